@@ -4,7 +4,7 @@ PROPS = {}
 HOOK_COMMITS = ["4bf9c3e", "fb2c1fb"]
 NOT_APPLICABLE = {}
 # properties whose check exists but is being brought in line with repairs just made in /repo: not claimed until green
-PENDING = {}
+PENDING = {"C05": "not yet claimed: the check exists (./check C05) but its proofs are being brought in line with the repairs F30/F32/F40 just committed in /repo (the null-ordering and scope-leak witnesses no longer hold)"}
 
 PROPS["C19"] = {
     "gen": ["gen_color_table.py"],
@@ -699,4 +699,167 @@ PROPS["C02"] = {
                   "(CxxEvalExprFunction) but are not generated by stream c02",
     "technique": "Lean 4 proofs (coverage of the dependency analysis; invariant of an abstract signal/slot world) + checker with "
                  "soundness proof applied to every real IR + execution of real IR in the abstract world on random histories + header scan",
+}
+
+PROPS["C01"] = {
+    "gen": ["gen_verif_env.py"],
+    "lean": ["QV.Props.C01"],
+    "streams": ["c01"],
+    "rule": "`spec-c01` (kind=pred, the execution oracle): batches of ~32 generated well-typed binding programs (the general "
+            "type-directed generator at noise 0 over VBase/VOther/VDerived + targeted programs: % / << >> on negative and boundary "
+            "operands, uint arithmetic, Math.min/max on uint/int/double, a folded constant next to a dynamic operand, nested switch "
+            "with default in the middle and fall-through, break under nested if, let/const shadowing, early return and dead code, "
+            "null guards by && || ?:, casts, an untyped constant taking the type of the other ternary branch, string comparison / "
+            "arg / subscripts, switch on strings) are bound to a property of object `a` and translated by the REAL pipeline "
+            "(generate mode); the real uisupport_*.h + a mini ui_*.h read off the real .ui are compiled with g++ -std=c++17 "
+            "against the RUNTIME mock (cxx/rt/qtrt.h + classes generated from harness/metatypes/verif.json by "
+            "tools/gen_rt_decls.py) and RUN: objects built, setup() called, then for each of 12 (thorough 16) random states the "
+            "properties are stored and the real eval<Object><Property>() is called; Lean evaluates Spec.Sem on the same program "
+            "and states and judges every printed value the specification defines (undefined states are not compared). "
+            "`c01-ir` (kind=pred): Model.IrSem executes the REAL IR (read-only hook) in 6 states and must return the Spec.Sem value "
+            "(separates builder from C++ emitter). `c01-body` (kind=model): exact text of the real eval function = Model.CxxBody of the "
+            "model IR. distinct = distinct requests",
+    "trusted_base": [
+        "g++ 12 -std=c++17 -O0 as the C++ implementation (int = 32 bit two's complement, >> arithmetic, IEEE binary64)",
+        "cxx/rt/qtrt.h: hand-written runtime mock of the documented Qt 5 API the header uses (QString over UTF-16 with arg/isEmpty, "
+        "QList/QStringList, QVariant minimal, QFlags, QObject::connect/disconnect with direct connections and argument-prefix "
+        "functors, QOverload, qDebug recording, QCoreApplication::translate = identity, Q_ASSERT_X/Q_UNREACHABLE/SIGSEGV/SIGFPE "
+        "abort the guarded evaluation and are reported); tools/gen_rt_decls.py: runnable classes from verif.json (fields, "
+        "getters/setters/notify signals, enum values k / flags 0,1,2,4, deterministic method bodies mirrored by "
+        "lean/QV/Driver/Sem.lean hostMethod); the generated main() (direct stores, `#define private public` to call eval)",
+        "the generator, its pretty-printer, the mini ui_*.h scanner; Lean's Float as IEEE binary64 (driver side)",
+        "Spec.Sem: the documented language read as JavaScript where docs/language.md is silent (evaluation order, block scoping, "
+        "completion values), int32 overflow / division by zero / null / out-of-range / unassigned / unrepresentable constant = undefined",
+        "Model.Walk/Builder/Finalize tied to the real code by the ir stream (exact IR); Model.CxxBody tied by c01-body",
+    ],
+    "assumptions": [
+        "the composition of the per-construct theorems over arbitrary programs is not a theorem: it is decided per program by c01-ir "
+        "and spec-c01",
+        "QString::arg(double) formatting and QVariant conversions between different stored types are not specified (not compared)",
+        "uses of an integer constant outside the range of the int/uint type it meets are undefined in Spec.Sem (see F41)",
+    ],
+    "level_text": "proof (partial): compile_correct_full_statement stated; proved for every input: fold_agrees_spec / "
+                  "fold_unary_agrees_spec (folding of integer constants = Spec.Sem, no code emitted; corollary of C03), fold_int32_agree "
+                  "(range condition under which 64-bit folding = 32-bit int arithmetic) + fold_int32_hypothesis_needed, emit_sound "
+                  "(emit_result: one fresh local, append-only, previously computed locals preserved), unary_correct / binary_correct "
+                  "(the emitted statement computes Spec.Sem.unop/binop), logical_wiring + logical_and_value / logical_or_value "
+                  "(short-circuit CFG fragment), ternary_fragment, if_fragment + if_wiring, return_of_completion, and "
+                  "compile_correct_partial END-TO-END (build -> IR -> IrSem = Spec.Sem in every world) for the fragment P ::= o.p. "
+                  "Everything beyond is decided by execution of the real C++ and of the real IR against Spec.Sem.",
+    "level_note": "trusted: Lean kernel, g++, the runtime mock; quick tier: 60 translation units, ~1850 programs x 12 states run "
+                  "(~14 700 values compared, ~23 % of the states undefined and skipped), 2 400 real IRs executed by IrSem (~10 200 values), "
+                  "~2 350 function bodies compared exactly (0 disagreements); findings F40 (let in a switch clause leaks into the "
+                  "enclosing scope: uninitialised read), F41 (Math.max/min with a constant outside int: header does not compile)",
+    "technique": "Lean 4 proof (per-construct compiler correctness lemmas over an executable reference semantics) + specification-judged "
+                 "execution of the real generated C++ and of the real IR",
+}
+
+PROPS["C13"] = {
+    "gen": ["gen_verif_env.py"],
+    "lean": ["QV.Props.C13"],
+    "streams": ["c13"],
+    "rule": "`spec-c13` (kind=pred, execution oracle): batches of ~24 generated handlers (expression, block, function with 0..n typed "
+            "parameters; the general effect generator at noise 0 + targeted handlers: fewer parameters than the signal carries, all "
+            "parameters, the defaulted signal with and without parameter, branches with different effect orders, return in handlers, a "
+            "write visible to a later read, switch with fall-through, receiver/argument and left/right evaluation order) bound as "
+            "on<Signal> on object `a` (signals fired(), fired2(int,QString), defaulted(bool=), moved(VBase*)), translated by the REAL "
+            "pipeline; the real header is compiled against the runtime mock (cxx/rt) and RUN: setup() makes the real "
+            "QObject::connect, then for each of 6 (thorough 12) random object states the signal is EMITTED with random arguments "
+            "and the recorded trace (setter calls with values, method calls with arguments, log calls) is printed, together with "
+            "the number of live connections after setup() (must be exactly 1, on the declaring object); Lean evaluates Spec.Sem's "
+            "effect trace for the same handler, state and arguments and judges (undefined states are not compared). "
+            "`c13-body` (kind=model): exact text of the real setup<Name>() (connect + typed lambda) and on<Name>() functions, or the "
+            "exact rejection messages (ambiguous overloads over(int)/over(QString) and bump(int)/bump(double), slots, methods, "
+            "unknown names, names outside on[A-Z], incompatible / too many parameters) = Model.Callback + Model.CxxBody. "
+            "distinct = distinct requests",
+    "trusted_base": [
+        "as C01: g++ 12, cxx/rt/qtrt.h (connect/disconnect/emit as DIRECT connections serving the functor the prefix of the signal's "
+        "arguments it accepts, setters and invokables recording trace events, qDebug recording its arguments), "
+        "tools/gen_rt_decls.py, the generators and printers",
+        "Spec.Sem: JavaScript evaluation order (callee and left-hand reference first), trace = property writes, method calls (pure ones "
+        "too), log calls; an untyped constant argument is an `int`",
+        "Model.Callback tied by c13-body; Model.Walk/Builder tied by the ir stream; class facts from the real type map (Gen/VerifEnv)",
+    ],
+    "assumptions": [
+        "Qt delivers a direct connection synchronously and passes the leading arguments to a functor taking fewer (documented Qt behaviour, "
+        "implemented by the mock)",
+        "the general trace equality (callback_trace_full_statement) is decided per handler by execution, not proved",
+        "annotations naming classes the generated environment has no facts for (QWidget, QObject) are skipped by the model comparison",
+    ],
+    "level_text": "proof (partial): signal_name_some_iff / signal_name_rejects / signal_name_injective (on<Signal> mapping defined exactly "
+                  "on on[A-Z].., injective), uniquify_single, chain_some / chain_none_iff, sortDesc_mem / sortDesc_sorted, "
+                  "uniquify_most_arguments (accepted overload is one of the overloads with the most arguments), uniquify_ambiguous_iff "
+                  "(ambiguous = in order of increasing argument count some overload does not extend its predecessor: kind, return type or "
+                  "leading arguments differ), compat_trans / chain_all_compat, callback_is_signal, rejected_has_message, "
+                  "params_accepted_iff (#params <= #args and param type assignable FROM the argument type, position by position: leading "
+                  "arguments), too_many_rejected; callback_trace_full_statement stated; callback_trace_partial END-TO-END for the "
+                  "handler fragment H ::= o.p = true|false. Effects of arbitrary handlers are decided by executing the real header.",
+    "level_note": "quick tier: 31 requests / 24 translation units, ~560 handlers x 6 emissions (~2 450 traces compared, ~21 % undefined), "
+                  "940 function-text / rejection comparisons (0 disagreements, 2 skipped); findings F42 (call arguments evaluated before the "
+                  "callee: known, repair contradicts a pinned snapshot), F43 (assignment right-hand side before the left-hand object: "
+                  "repairable, findings/F43_assignment_order.fix.diff)",
+    "technique": "Lean 4 proof (overload choice, parameter rule, name mapping) + specification-judged execution of the real generated C++",
+}
+
+PROPS["C05"] = {
+    "gen": ["gen_verif_env.py"],
+    "lean": ["QV.Props.C05"],
+    "streams": ["c05"],
+    "rule": "programs are bound on object `a` (class VBase of harness/metatypes/verif.json) in the document shape of the ir stream and "
+            "translated by the real pipeline in generate mode. `c05-accept` (kind=pred): 3 000 WELL-TYPED programs (bindings of all 14 "
+            "property types and callbacks of 5 signals) generated type-directed from the constructs of docs/language.md only "
+            "(harness/src/typegen.rs: every operator class, casts, ternary, Math.max/min, qsTr, QString::arg/isEmpty, QList::isEmpty, list "
+            "subscripts, let/const with and without annotation, uninitialised let + assignment, if/else, switch/case/default/break, return, "
+            "property writes with upcast, overloaded slots, console.*, callback parameters); Lean (Spec.Typing) must type the program and "
+            "the real compiler must accept it WITHOUT ANY diagnostic and produce an output for it. `c05-reject` (kind=pred): ~3 650 "
+            "programs obtained from such programs by ONE type-breaking edit out of a catalogue of 54 kinds (operand of another type per "
+            "operator class, int literal <-> double literal, non-bool condition in if/?:/&&/||/!, assignment to const / read-only property / "
+            "rvalue / of a wrong type, argument count and type, unknown member, unsupported binary/unary operator and statement, function "
+            "expression, bad `as`, pointer mix in ?: and ==, pointer ordering, `null < null`, enum mix, result type not assignable (21 "
+            "property/value type pairs), return without value / of mixed types, callback with too many / mistyped / untyped / duplicated "
+            "parameters or a named function, undeclared variable, use outside the declaring block / after the switch / after an if branch, "
+            "let without type and value, const without value, mixed array, subscript index/non-list, case value type, Math.max mixed, qsTr "
+            "of a non-literal, literal default vs uint, void used as value, unreadable property, break outside switch, ternary branches): "
+            "if Lean says ill-typed the real compiler must have produced >= 1 error and neither a .ui value nor a support-code function for "
+            "the binding; if Lean says well-typed the edit was not type-breaking (counted as kept-well-typed) and the compiler must accept; "
+            "the verdict string carries mutation kind x outcome. `c05-ir` (kind=pred): the REAL IR of every accepted program (hook) is "
+            "re-checked by the independent judgement Spec.IrTyping.check (operands admissible per operator table, result type = type of the "
+            "assigned local, only plain copies may rely on assignability, property reads/writes, call arguments, bool branch conditions, "
+            "one common return type assignable to the property). `c05-verdict` (kind=model): accepted/rejected of the real compiler vs the "
+            "Lean MODEL of the checker (tir::build + dependency analysis + verify_code_return_type / verify_callback_parameter_type / "
+            "extract_string_list: QV.Model.TypeCheck), on all of the above programs",
+    "trusted_base": [
+        "Spec.Typing / Spec.IrTyping: the typing rules of docs/language.md written independently of typedexpr.rs/tir/builder.rs/ceval.rs; "
+        "20 decisions (D1-D20, listed in the file header) fix what the documentation leaves open, each exercised by corpus/C05/decisions.c05.req",
+        "hand-written models of typeutil.rs (Model/Types.lean), tir/builder.rs (Model/Builder.lean), tir/ceval.rs (Model/Ceval.lean), "
+        "typedexpr.rs (Model/Walk.lean) tied by the ir stream (exact IR) and, for the post-build checks of uigen (Model/TypeCheck.lean), by "
+        "the c05-verdict comparison",
+        "the generator's pretty-printer (harness/src/ast.rs) and the detection of outputs (property element of widget `a` in the real .ui "
+        "read by the independent XML reader; function names evalA<Prop>/updateA<Prop>/onA<Signal> in the real header)",
+    ],
+    "assumptions": [
+        "a failure of the constant folder that depends on VALUES (integer overflow, division by zero, shift count, literal beyond i64) is "
+        "not a typing error: the generator avoids such constants and the oracle exempts the two messages",
+        "programs whose tail is not clean (a declaration, break or switch in tail position after value-producing statements) have an "
+        "unspecified result: nothing is demanded of them (verdict `unspecified`; 0 such cases are generated)",
+        "statements (let/if/switch/return and the result of a block body) are covered by the streams only; the soundness THEOREM covers all "
+        "expression forms",
+    ],
+    "level_text": "proof of the per-rule characterisations for all inputs: is_assignable = identity/upcast/enum-flags alias/literal adoption "
+                  "(is_assignable_iff, never a conversion), deduce_type = one common type (no upcast), pick_type_cast = the documented cast "
+                  "table (pick_type_cast_is_the_cast_table), operator token tables, per-operator admissible-type tables of the dynamic path "
+                  "(dynamic_unary_iff/_type, dynamic_binary_iff/_type) and of the constant path (constant_unary_iff/_type, "
+                  "constant_binary_iff/_type), CONSISTENCY of the two paths with the exact exceptions (QString-typed constants over-rejected, "
+                  "i64::MIN % -1, null == null only constant, and the over-acceptance null < null = finding F30), verify_code_return_type and "
+                  "verify_callback_parameter_type = rules D16/D18; proof of soundness of the model w.r.t. the specification for ALL expression "
+                  "forms (model_sound_partial, binding_expression_sound: accepted => typed by Spec.Typing with exactly the operand's type), "
+                  "excluding only `null < null`; the full statement over programs is refuted by the F30 witness "
+                  "(model_sound_full_statement_false). Statements and the acceptance direction are decided by the c05 streams (partial).",
+    "level_note": "trusted: Lean kernel; Spec.Typing is the reading of docs/language.md (decisions D1-D20 recorded); models tied by exact IR "
+                  "comparison (ir stream) and by c05-verdict; findings F30 (null ordering folded), F32/F40 (declarations leak out of if "
+                  "branches / switch clauses: uninitialised read), F33 (QString-typed constants over-rejected), F31 (constant list mixing "
+                  "qsTr and bare strings refused; pinned by an upstream test)",
+    "technique": "Lean 4 proof (checker rules = specification tables; simulation-free soundness of the walk for expressions) + "
+                 "specification-judged differential check of the real compiler on type-directed programs and their single-edit mutants + "
+                 "independent re-typing of the real IR",
 }
